@@ -47,16 +47,23 @@ theorem tie_sizes :
     Tw.Gen.Packet7.CHUNK_HEADER_SIZE = 2 ∧ Tw.Gen.Packet7.CHUNK_HEADER_SIZE_VITAL = 3 ∧
     Tw.Gen.Packet7.READ_PAYLOAD_LIMIT = 1393 ∧ Tw.Gen.Packet7.CONNLESS_WRITE_LIMIT = 1391 := by decide
 
-/-- Tie: the literals of the functions the reader models were written against (lengths `4`, `3`, `1 + 4`
-of `has_token_heuristic`, the `0xff` padding test, …), in source order. -/
+/-- Tie: the numbers the reader models were written against, per function as the *set* of distinct numbers
+> 1 it mentions (integer and byte literals, named constants resolved to their values, `.len()` of
+byte-string constants, private helper functions followed; sorted).  E.g. `has_token_heuristic` knows 2
+(`CTRLMSG_CONNECTACCEPT`), 3 (`nul != 3`, `[0..3]`) and 4 (`CTRLMSG_CLOSE`, `TOKEN_SIZE`, the magic's
+length, the ambiguous payload length); `read_impl` additionally `0xff`, 127, 8, 1400.  Behaviour-preserving
+restructurings (a helper `nul_position`, `starts_with` for a manual comparison, `MAGIC.len()` for `4`) keep
+these sets; a new or changed number breaks the tie.  Masks and shifts of the header codecs stay pinned
+position by position (`tie_masks6/7` in C05), sizes in `tie_sizes`. -/
 theorem tie_reader_literals :
-    Tw.Gen.Packet6.lits_has_token_heuristic = [4, 0, 4, 1, 4, 0, 4, 3, 0, 3, 1, 1, 1, 0] ∧
-    Tw.Gen.Packet6.lits_read_impl = [0, 255, 3, 255, 0, 0, 0, 1, 2, 3, 0, 0, 0, 0, 0, 0, 0, 1, 1, 0, 0] ∧
-    Tw.Gen.Packet6.lits_is_initial = [0] ∧ Tw.Gen.Packet6.lits_needs_decompression = [0, 0] ∧
-    Tw.Gen.Packet6.lits_next_warn = [0, 0, 0, 1] ∧ Tw.Gen.Packet6.lits_read_chunk_header = [0] ∧
-    Tw.Gen.Packet7.lits_read_impl = [0, 0, 0, 0, 0, 0, 0, 0, 0, 4, 4, 0, 1, 2, 3, 0, 0, 1, 1, 0, 0] ∧
-    Tw.Gen.Packet7.lits_needs_decompression = [0, 0] ∧
-    Tw.Gen.Packet7.lits_next_warn = [0, 0, 0, 1] ∧ Tw.Gen.Packet7.lits_read_chunk_header = [0] := by decide
+    Tw.Gen.Packet6.nums_has_token_heuristic = [2, 3, 4] ∧
+    Tw.Gen.Packet6.nums_read_impl = [2, 3, 4, 8, 127, 255, 1400] ∧
+    Tw.Gen.Packet6.nums_is_initial = [2, 3, 4, 1400] ∧ Tw.Gen.Packet6.nums_needs_decompression = [2, 8, 1400] ∧
+    Tw.Gen.Packet6.nums_decompress_impl = [2, 8, 1400] ∧
+    Tw.Gen.Packet6.nums_next_warn = [2] ∧ Tw.Gen.Packet6.nums_read_chunk_header = [] ∧
+    Tw.Gen.Packet7.nums_read_impl = [2, 3, 4, 5, 7, 8, 127, 519, 1400] ∧
+    Tw.Gen.Packet7.nums_needs_decompression = [4, 8, 1400] ∧ Tw.Gen.Packet7.nums_decompress_impl = [4, 8, 1400] ∧
+    Tw.Gen.Packet7.nums_next_warn = [2] ∧ Tw.Gen.Packet7.nums_read_chunk_header = [] := by decide
 
 /-- Tie: the buffer size the doc comments of `Packet::read` (both files) ask the caller for is the one the
 code asserts and the theorems below assume (`MAX_PACKETSIZE`).  Before the doc repair the comments said
